@@ -74,8 +74,8 @@ def reference_sort(matrix, graded, reverse):
     return sorted(range(len(cols)), key=lambda i: M.order_key(cols[i], graded, reverse)), cols
 
 
-def check_sort(ctx, numpoly, matrix, kernel, one_dim=False):
-    arr = numpy.array(matrix[0] if one_dim else matrix, dtype=int)
+def check_sort(ctx, numpoly, matrix, kernel, one_dim=False, dtype="int64"):
+    arr = numpy.array(matrix[0] if one_dim else matrix, dtype=dtype)
     for graded in (False, True):
         for reverse in (False, True):
             ctx.evaluations += 1
@@ -89,22 +89,22 @@ def check_sort(ctx, numpoly, matrix, kernel, one_dim=False):
                                "reverse": reverse, "kernel": kernel},
                               f"glexsort({matrix}, graded={graded}, reverse={reverse}) raised "
                               f"{type(err).__name__}: {err}",
-                              {"fn": "glexsort", "matrix": matrix, "one_dim": one_dim})
+                              {"fn": "glexsort", "matrix": matrix, "one_dim": one_dim, "dtype": dtype})
                 return
             if sorted(got) != list(range(len(cols))):
                 ctx.violation({"op": "glexsort", "failure": "not_permutation", "graded": graded,
                                "reverse": reverse, "kernel": kernel},
                               f"glexsort({matrix}, graded={graded}, reverse={reverse}) = {got} is not "
-                              f"a permutation", {"fn": "glexsort", "matrix": matrix, "one_dim": one_dim})
+                              f"a permutation", {"fn": "glexsort", "matrix": matrix, "one_dim": one_dim, "dtype": dtype})
                 return
             if [cols[i] for i in got] != [cols[i] for i in ref]:
-                ctx.violation({"op": "glexsort", "failure": "order", "graded": graded,
+                ctx.violation({"op": "glexsort", "failure": "order", "graded": graded, "dtype": dtype,
                                "reverse": reverse, "kernel": kernel, "n_cols": len(cols),
                                "n_rows": len(matrix)},
                               f"glexsort({matrix}, graded={graded}, reverse={reverse}) = {got}; "
                               f"columns {[cols[i] for i in got]} are not in the documented order "
                               f"{[cols[i] for i in ref]} (kernel {kernel})",
-                              {"fn": "glexsort", "matrix": matrix, "one_dim": one_dim})
+                              {"fn": "glexsort", "matrix": matrix, "one_dim": one_dim, "dtype": dtype})
                 return
 
 
@@ -165,6 +165,24 @@ def run_sort(spec, ctx):
             continue
         check_sort(ctx, numpoly, matrix, kernel)
         ctx.evaluated(("glexsort-random", rows, cols, top, kernel), True, n=0)
+        ctx.end()
+    # keys in every integer dtype an exponent table may come in, with values close to the limits
+    # of the type (the grade of a column is its exact sum, not a sum modulo 2**bits)
+    limits = {"uint8": 255, "int8": 127, "uint16": 65535, "int16": 32767, "uint32": 2 ** 32 - 1,
+              "int32": 2 ** 31 - 1, "int64": 2 ** 40, "uint64": 2 ** 40}
+    for i in range(nrandom):
+        dtype = rng.choice(sorted(limits))
+        top = limits[dtype]
+        rows = rng.choice([2, 3, 4])
+        cols = rng.choice([2, 3, 5, 8, 17])
+        pool = [0, 1, top, top - 1, top // 2, top // 2 + 1, top // 3, 2]
+        matrix = [[rng.choice(pool) for _ in range(cols)] for _ in range(rows)]
+        case = {"fn": "glexsort", "matrix": matrix, "kernel": kernel, "dtype": dtype}
+        if not ctx.begin(case):
+            continue
+        check_sort(ctx, numpoly, matrix, kernel, dtype=dtype)
+        ctx.count("glexsort_narrow_keys")
+        ctx.evaluated(("glexsort-dtype", rows, cols, dtype, kernel), True, n=0)
         ctx.end()
     ctx.sample({"fn": "glexsort", "matrix": [[0, 1, 2, 0], [2, 1, 0, 1]], "kernel": kernel})
 
@@ -427,7 +445,7 @@ def run(spec, ctx):
         kernel = spec.get("kernel", "avx512")
         if case.get("fn") == "glexsort" and "matrix" in case:
             if ctx.begin(case):
-                check_sort(ctx, numpoly, case["matrix"], kernel, case.get("one_dim", False))
+                check_sort(ctx, numpoly, case["matrix"], kernel, case.get("one_dim", False), dtype=case.get("dtype", "int64"))
                 ctx.end()
         elif case.get("fn") == "glexsort":
             run_sort(spec, ctx)
